@@ -229,7 +229,7 @@ def run(ctx):
     home = os.path.join(ctx.work, 'home'); os.makedirs(home, exist_ok=True)
     cases = matrix_cases(full_init=thorough)
     nmatrix = len(cases)
-    cases += fuzz_cases(rng, 1500 if thorough else 40)
+    cases += fuzz_cases(rng, 800 if thorough else 40)
 
     def prepare(c):
         d = os.path.join(ctx.work, 'case-' + c.cid); os.makedirs(d, exist_ok=True)
